@@ -102,7 +102,7 @@ func decodeInt32(buf nextByte) (ret int32, bytesRead uint64, err error) {
 			// fixme: can be optimized.
 			if bytesRead > maxVarintLen32 {
 				return 0, 0, errOverflow32
-			} else if unused := b & 0b00110000; bytesRead == maxVarintLen32 && ret < 0 && unused != 0b00110000 {
+			} else if unused := b & 0b01110000; bytesRead == maxVarintLen32 && ret < 0 && unused != 0b01110000 {
 				return 0, 0, errOverflow32
 			} else if bytesRead == maxVarintLen32 && ret >= 0 && unused != 0x00 {
 				return 0, 0, errOverflow32
@@ -146,9 +146,9 @@ func DecodeInt33AsInt64(r io.ByteReader) (ret int64, bytesRead uint64, err error
 	}
 	// Over flow checks.
 	// fixme: can be optimized.
-	if bytesRead > maxVarintLen33 {
+	if bytesRead > maxVarintLen33 || b&int33Mask != 0 {
 		return 0, 0, errOverflow33
-	} else if unused := b & 0b00100000; bytesRead == maxVarintLen33 && ret < 0 && unused != 0b00100000 {
+	} else if unused := b & 0b01100000; bytesRead == maxVarintLen33 && ret < 0 && unused != 0b01100000 {
 		return 0, 0, errOverflow33
 	} else if bytesRead == maxVarintLen33 && ret >= 0 && unused != 0x00 {
 		return 0, 0, errOverflow33
@@ -183,7 +183,7 @@ func decodeInt64(buf nextByte) (ret int64, bytesRead uint64, err error) {
 			// fixme: can be optimized.
 			if bytesRead > maxVarintLen64 {
 				return 0, 0, errOverflow64
-			} else if unused := b & 0b00111110; bytesRead == maxVarintLen64 && ret < 0 && unused != 0b00111110 {
+			} else if unused := b & 0b01111110; bytesRead == maxVarintLen64 && ret < 0 && unused != 0b01111110 {
 				return 0, 0, errOverflow64
 			} else if bytesRead == maxVarintLen64 && ret >= 0 && unused != 0x00 {
 				return 0, 0, errOverflow64
